@@ -1,11 +1,13 @@
 // vh-c18 is the correspondence / oracle harness of property C18 (package fluent): it generates
 // PROGRAMS — builder calls in any order with repeats, interleaved with AddEntry / ReplaceEntry /
-// DeleteEntry / UpdateElectionID and connection calls on one or two fluent clients — runs them
-// through the real fluent API against a recording spb.GRIBIClient stub, and writes
+// DeleteEntry / UpdateElectionID, connection calls and the lifecycle calls Start / StartSending / Stop /
+// Start again on one or two fluent clients — runs them through the real fluent API against recording
+// spb.GRIBIClient stubs (one per Start, i.e. per client.Client), and writes
 //   <out>/cases.json   the programs (replayable inputs)
 //   <out>/cases_<k>.v  the programs with the captured ModifyRequests / OpProto / EntryProto
 //                      messages as Gallina terms for Tools/FluentObs.v
-//   <out>/impl.json    verdicts of the model-free oracle (ids 1,2,3,..., op types, election stamps from
+//   <out>/impl.json    verdicts of the model-free oracle (ids distinct and strictly increasing, 1,2,3,..., over
+//                      the whole life of a fluent client, restarts included; op types, election stamps from
 //                      the script, queued messages unchanged by later builder calls) and statistics
 package main
 
